@@ -1283,6 +1283,383 @@ Qed.
 
 End MultiStep.
 
+(* newNode: a node at an address that holds nothing yet (an occupied address is left alone) *)
+Definition alloc (h : heap) (a : addr) (e : mentry) : heap :=
+  fun b => if Nat.eqb b a
+           then match h b with
+                | Some nd => Some nd
+                | None => Some (mkNode e (fun _ => None))
+                end
+           else h b.
+
+Record ins := mkIns { i_addr : addr; i_entry : mentry; i_height : nat }.
+
+Record msys := mkMS {
+  m_heap : heap; m_node : addr; m_prev : nat -> addr; m_ops : list wop;
+  m_todo : list ins; m_readers : list reader }.
+
+(* MW: the writer's next step — the next store of the running Insert, or (when none is
+   running) allocation of the next node plus the read-only search that fills prev[];
+   MR i: reader i's next load; MSpawn: a new reader appears *)
+Inductive mtick := MW | MR (i : nat) | MSpawn.
+
+Definition m_step (fuel : nat) (s : msys) (t : mtick) : msys :=
+  match t with
+  | MW =>
+      match m_ops s with
+      | o :: r => mkMS (wexec (m_node s) (m_prev s) (m_heap s) o) (m_node s) (m_prev s) r
+                       (m_todo s) (m_readers s)
+      | [] =>
+          match m_todo s with
+          | [] => s
+          | i :: todo =>
+              let h := alloc (m_heap s) (i_addr i) (i_entry i) in
+              mkMS h (i_addr i) (h_prevs h (i_entry i) fuel (i_height i))
+                   (insert_prog (i_height i)) todo (m_readers s)
+          end
+      end
+  | MR i => mkMS (m_heap s) (m_node s) (m_prev s) (m_ops s) (m_todo s)
+                 (upd_nth i (r_step (m_heap s)) (m_readers s))
+  | MSpawn => mkMS (m_heap s) (m_node s) (m_prev s) (m_ops s) (m_todo s)
+                   (m_readers s ++ [r_init])
+  end.
+
+Definition m_run (fuel : nat) (s : msys) (sched : list mtick) : msys :=
+  fold_left (m_step fuel) sched s.
+
+Definition m_init (h : heap) (todo : list ins) : msys :=
+  mkMS h head (fun _ => head) [] todo [].
+
+(* allocated nodes stay allocated and keep their entry *)
+Definition ext (h h' : heap) : Prop :=
+  forall a, h a <> None -> h' a <> None /\ entry_of h' a = entry_of h a.
+
+Lemma ext_refl : forall h, ext h h.
+Proof. intros h a H. split; [exact H|reflexivity]. Qed.
+
+Lemma ext_trans : forall h1 h2 h3, ext h1 h2 -> ext h2 h3 -> ext h1 h3.
+Proof.
+  intros h1 h2 h3 H12 H23 a Ha. destruct (H12 a Ha) as [H2 E2]. destruct (H23 a H2) as [H3 E3].
+  split; [exact H3|congruence].
+Qed.
+
+Lemma ext_store : forall h a lv v, ext h (store h a lv v).
+Proof.
+  intros h a lv v b Hb. split; [|apply entry_store].
+  destruct (h b) as [nd|] eqn:E; [|congruence].
+  destruct (store_alloc h a lv v b (ex_intro _ nd E)) as [nd' E']. congruence.
+Qed.
+
+Lemma ext_alloc : forall h a e, ext h (alloc h a e).
+Proof.
+  intros h a e b Hb. unfold entry_of, alloc. destruct (Nat.eqb b a); [|split; [exact Hb|reflexivity]].
+  destruct (h b); [split; [discriminate|reflexivity]|congruence].
+Qed.
+
+Lemma ext_wexec : forall n prev h o, ext h (wexec n prev h o).
+Proof. intros n prev h [lv|lv]; cbn [wexec]; apply ext_store. Qed.
+
+Lemma m_step_ext : forall fuel s t, ext (m_heap s) (m_heap (m_step fuel s t)).
+Proof.
+  intros fuel s [|i|]; cbn [m_step]; try apply ext_refl.
+  destruct (m_ops s) as [|o r]; [|apply ext_wexec].
+  destruct (m_todo s) as [|i todo]; [apply ext_refl|apply ext_alloc].
+Qed.
+
+Lemma m_run_ext : forall fuel sched s, ext (m_heap s) (m_heap (m_run fuel s sched)).
+Proof.
+  intros fuel. induction sched as [|t sched IH]; intros s; [apply ext_refl|].
+  cbn [m_run fold_left]. eapply ext_trans; [apply m_step_ext|apply IH].
+Qed.
+
+Lemma store_none : forall h a lv v b, h b = None -> store h a lv v b = None.
+Proof.
+  intros h a lv v b H. unfold store. destruct (Nat.eqb b a) eqn:E; [|exact H].
+  apply Nat.eqb_eq in E. subst b. rewrite H. reflexivity.
+Qed.
+
+Lemma wexec_none : forall n prev h o b, h b = None -> wexec n prev h o b = None.
+Proof. intros n prev h [lv|lv] b H; cbn [wexec]; apply store_none; exact H. Qed.
+
+Lemma alloc_other : forall h a e b, b <> a -> alloc h a e b = h b.
+Proof.
+  intros h a e b H. unfold alloc. destruct (Nat.eqb b a) eqn:E; [|reflexivity].
+  apply Nat.eqb_eq in E. contradiction.
+Qed.
+
+Lemma alloc_fresh : forall h a e, h a = None -> alloc h a e a = Some (mkNode e (fun _ => None)).
+Proof. intros h a e H. unfold alloc. rewrite Nat.eqb_refl, H. reflexivity. Qed.
+
+Lemma seg_allocated : forall h lv p l q, seg h lv p l q -> forall b, In b l -> h b <> None.
+Proof.
+  intros h lv p l q H. induction H as [p|a nd l q Ha Hs IH]; intros b Hb; [destruct Hb|].
+  destruct Hb as [<-|Hb]; [congruence|apply IH; exact Hb].
+Qed.
+
+Lemma seg_alloc : forall h a e lv p l q, h a = None -> seg h lv p l q -> seg (alloc h a e) lv p l q.
+Proof.
+  intros h a e lv p l q Ha H. induction H as [p|b nd l q Hb Hs IH]; [constructor|].
+  econstructor; [|exact IH]. rewrite alloc_other; [exact Hb|]. intros ->. congruence.
+Qed.
+
+Lemma ents_alloc : forall h a e l, ~ In a l -> ents (alloc h a e) l = ents h l.
+Proof.
+  intros h a e l H. unfold ents. apply map_ext_in. intros b Hb. unfold entry_of.
+  rewrite alloc_other; [reflexivity|]. intros ->. contradiction.
+Qed.
+
+Lemma wf_alloc : forall h ls a e, wf_heap h ls -> h a = None ->
+  wf_heap (alloc h a e) ls /\ fresh_node (alloc h a e) ls a e.
+Proof.
+  intros h ls a e (Hp & Hs & Hsub) Ha.
+  assert (Hn : forall lv, ~ In a (head :: ls lv)).
+  { intros lv Hin. exact (seg_allocated _ _ _ _ _ (Hp lv) a Hin Ha). }
+  split; [split; [|split]|split; [|split]].
+  - intros lv. apply seg_alloc; [exact Ha|apply Hp].
+  - rewrite ents_alloc; [exact Hs|]. intros X. apply (Hn 0). right. exact X.
+  - exact Hsub.
+  - intros ->. apply (Hn 0). left. reflexivity.
+  - eexists. split; [apply alloc_fresh; exact Ha|reflexivity].
+  - intros lv X. apply (Hn lv). right. exact X.
+Qed.
+
+Definition todo_ok (h : heap) (todo : list ins) : Prop :=
+  NoDup (map i_addr todo) /\ Forall (fun i => h (i_addr i) = None) todo.
+
+(* the writer is idle on a well-formed heap, or inside one Insert (the invariant of C1) *)
+Definition phase (fuel : nat) (s : msys) (C : list addr) : Prop :=
+  (m_ops s = [] /\
+   exists ls, wf_heap (m_heap s) ls /\ C = head :: ls 0 /\
+              length (ls 0) + length (m_todo s) <= fuel)
+  \/
+  (exists hb lb e j half c,
+     wf_heap hb lb /\ fresh_node hb lb (m_node s) e /\
+     Inv hb lb e (m_node s) j half (m_heap s) /\
+     m_ops s = pending j half c /\
+     Forall (fun o => m_prev s (op_level o) = pred_of hb e (lb (op_level o))) (m_ops s) /\
+     C = Cj hb lb e (m_node s) j /\
+     length (lb 0) + 1 + length (m_todo s) <= fuel).
+
+(* Ss: for every reader the level-0 chain (with head) at the moment it appeared *)
+Definition GM (fuel : nat) (s : msys) (Ss : list (list addr)) : Prop :=
+  exists C, phase fuel s C /\ todo_ok (m_heap s) (m_todo s) /\
+            Forall2 (fun r St => RB (m_heap s) C St r) (m_readers s) Ss.
+
+Lemma linked_in_length : forall h e n l, length (linked_in h e n l) = S (length l).
+Proof.
+  intros h e n l. unfold linked_in. rewrite <- (before_after h e l) at 3.
+  rewrite !app_length. cbn [length]. lia.
+Qed.
+
+Lemma phase_idle : forall fuel s C, phase fuel s C -> m_ops s = [] ->
+  exists ls, wf_heap (m_heap s) ls /\ C = head :: ls 0 /\
+             length (ls 0) + length (m_todo s) <= fuel.
+Proof.
+  intros fuel s C [[_ H]|(hb & lb & e & j & half & c & Hwf & Hfr & Hi & Ho & _ & HC & Hb)] Hops;
+    [exact H|].
+  rewrite Hops in Ho. destruct half; cbn [pending] in Ho; [discriminate|].
+  destruct c; cbn [insert_ops] in Ho; [|discriminate].
+  destruct (inv_wf hb lb e (m_node s) Hwf Hfr j false (m_heap s) Hi) as (W & _).
+  exists (ls_at hb lb e (m_node s) j). split; [exact W|]. split; [exact HC|].
+  unfold ls_at. destruct (Nat.ltb 0 j); [rewrite linked_in_length|]; lia.
+Qed.
+
+Lemma phase_path : forall fuel s C, phase fuel s C ->
+  path (m_heap s) 0 (Some head) C /\ sorted (ents (m_heap s) (tl C)).
+Proof.
+  intros fuel s C [[_ (ls & W & -> & _)]|(hb & lb & e & j & half & c & Hwf & Hfr & Hi & _ & _ & -> & _)].
+  - split; [apply W|apply W].
+  - destruct (inv_wf hb lb e (m_node s) Hwf Hfr j half (m_heap s) Hi) as (W & _).
+    split; [apply W|apply W].
+Qed.
+
+Lemma Forall2_upd_nth : forall (T U : Type) (P : T -> U -> Prop) (f : T -> T) l l' i,
+  (forall x y, P x y -> P (f x) y) -> Forall2 P l l' -> Forall2 P (upd_nth i f l) l'.
+Proof.
+  intros T U P f l l' i Hf H. revert i. induction H as [|x y l l' Hxy H IH]; intros i.
+  - destruct i; constructor.
+  - destruct i as [|i]; cbn [upd_nth]; constructor; auto.
+Qed.
+
+Lemma Forall2_impl : forall (T U : Type) (P Q : T -> U -> Prop) l l',
+  (forall x y, P x y -> Q x y) -> Forall2 P l l' -> Forall2 Q l l'.
+Proof. intros T U P Q l l' H F. induction F; constructor; auto. Qed.
+
+Lemma RB_alloc : forall h a e C St r, h a = None -> RB h C St r -> RB (alloc h a e) C St r.
+Proof.
+  intros h a e C St r Ha (rest & Hp & H1 & H2). exists rest.
+  split; [apply seg_alloc; assumption|]. split; assumption.
+Qed.
+
+Lemma GM_step : forall fuel s Ss t, GM fuel s Ss ->
+  exists Ss', GM fuel (m_step fuel s t) Ss' /\
+    match t with
+    | MSpawn => exists C, path (m_heap s) 0 (Some head) C /\ Ss' = Ss ++ [C]
+    | _ => Ss' = Ss
+    end.
+Proof.
+  intros fuel s Ss t (C & Hph & (Hnd & Hnone) & Hrs). destruct t as [|i|]; cbn [m_step].
+  - (* writer *)
+    exists Ss. split; [|reflexivity].
+    destruct (m_ops s) as [|o r] eqn:Eo.
+    + destruct (phase_idle fuel s C Hph Eo) as (ls & W & -> & Hb).
+      destruct (m_todo s) as [|i todo] eqn:Et.
+      * exists (head :: ls 0). split; [exact Hph|]. split; [rewrite Et; split; assumption|exact Hrs].
+      * cbn [map] in Hnd. inversion Hnd as [|? ? Hni Hnd']; subst.
+        inversion Hnone as [|? ? Hi0 Hnone']; subst.
+        destruct (wf_alloc (m_heap s) ls (i_addr i) (i_entry i) W Hi0) as [W' F'].
+        exists (head :: ls 0). split; [|split].
+        -- right. exists (alloc (m_heap s) (i_addr i) (i_entry i)), ls, (i_entry i), 0, false, (i_height i).
+           cbn [m_heap m_node m_prev m_ops m_todo]. cbn [length] in Hb.
+           split; [exact W'|]. split; [exact F'|]. split; [apply inv_init; assumption|].
+           split; [reflexivity|]. split; [apply prog_agree; [exact W'|lia]|].
+           split; [reflexivity|lia].
+        -- cbn [m_heap m_todo]. split; [exact Hnd'|].
+           apply Forall_forall. intros i' Hi'. rewrite Forall_forall in Hnone'.
+           rewrite alloc_other; [apply Hnone'; exact Hi'|].
+           intros E. apply Hni. rewrite <- E. apply in_map. exact Hi'.
+        -- cbn [m_heap m_readers]. eapply Forall2_impl; [|exact Hrs].
+           intros x y. apply RB_alloc. exact Hi0.
+    + destruct Hph as [[Hops _]|(hb & lb & e & j & half & c & Hwf & Hfr & Hi & Ho & Hag & -> & Hb)];
+        [rewrite Eo in Hops; discriminate|].
+      rewrite Eo in Ho, Hag. inversion Hag as [|? ? Ho1 Hag']; subst.
+      rewrite (wexec_ext (m_node s) (m_prev s) (fun lv => pred_of hb e (lb lv)) (m_heap s) o Ho1).
+      assert (Htodo : todo_ok (wexec (m_node s) (fun lv => pred_of hb e (lb lv)) (m_heap s) o) (m_todo s)).
+      { split; [exact Hnd|]. eapply Forall_impl; [|exact Hnone]. intros i' Hi'. cbv beta in Hi'.
+        apply wexec_none. exact Hi'. }
+      destruct half; cbn [pending] in Ho.
+      * injection Ho as -> ->. exists (Cj hb lb e (m_node s) (S j)). split; [|split].
+        -- right. exists hb, lb, e, (S j), false, c. cbn [m_heap m_node m_prev m_ops m_todo].
+           split; [exact Hwf|]. split; [exact Hfr|].
+           split; [apply (inv_link2 hb lb e (m_node s) Hfr); exact Hi|].
+           split; [reflexivity|]. split; [exact Hag'|]. split; [reflexivity|exact Hb].
+        -- exact Htodo.
+        -- cbn [m_heap m_readers]. eapply Forall2_impl; [|exact Hrs].
+           intros x y. apply RB_link2; assumption.
+      * destruct c as [|c]; cbn [insert_ops] in Ho; [discriminate|].
+        injection Ho as -> ->. exists (Cj hb lb e (m_node s) j). split; [|split].
+        -- right. exists hb, lb, e, j, true, c. cbn [m_heap m_node m_prev m_ops m_todo].
+           split; [exact Hwf|]. split; [exact Hfr|].
+           split; [apply (inv_link1 hb lb e (m_node s) Hfr); exact Hi|].
+           split; [reflexivity|]. split; [exact Hag'|]. split; [reflexivity|exact Hb].
+        -- exact Htodo.
+        -- cbn [m_heap m_readers]. eapply Forall2_impl; [|exact Hrs].
+           intros x y. apply RB_link1; assumption.
+  - (* reader i *)
+    exists Ss. split; [|reflexivity]. exists C. split; [exact Hph|]. split; [split; assumption|].
+    cbn [m_heap m_readers]. apply Forall2_upd_nth; [|exact Hrs]. intros x y. apply RB_rstep.
+  - (* a new reader *)
+    destruct (phase_path fuel s C Hph) as [HC _].
+    exists (Ss ++ [C]). split; [|exists C; split; [exact HC|reflexivity]].
+    exists C. split; [exact Hph|]. split; [split; assumption|].
+    cbn [m_heap m_readers]. apply Forall2_app; [exact Hrs|]. constructor; [|constructor].
+    exists C. cbn [r_init r_cur r_done app]. split; [exact HC|]. split; apply subseq_refl.
+Qed.
+
+Lemma GM_run : forall fuel sched s Ss, GM fuel s Ss ->
+  exists more, GM fuel (m_run fuel s sched) (Ss ++ more).
+Proof.
+  intros fuel. induction sched as [|t sched IH]; intros s Ss H.
+  - exists []. rewrite app_nil_r. exact H.
+  - cbn [m_run fold_left]. fold (m_run fuel).
+    destruct (GM_step fuel s Ss t H) as (Ss' & H' & Ht).
+    destruct (IH _ _ H') as (more & Hm).
+    destruct t as [|i|].
+    + subst Ss'. exists more. exact Hm.
+    + subst Ss'. exists more. exact Hm.
+    + destruct Ht as (C & _ & ->). exists ([C] ++ more). rewrite app_assoc. exact Hm.
+Qed.
+
+Lemma GM_init : forall fuel h ls todo,
+  wf_heap h ls -> todo_ok h todo -> length (ls 0) + length todo <= fuel ->
+  GM fuel (m_init h todo) [].
+Proof.
+  intros fuel h ls todo W T B. exists (head :: ls 0). split; [|split; [exact T|constructor]].
+  left. split; [reflexivity|]. exists ls. cbn [m_init m_heap m_todo]. auto.
+Qed.
+
+Lemma Forall2_nth_both : forall (T U : Type) (P : T -> U -> Prop) l l' n d d',
+  Forall2 P l l' -> n < length l' -> P (nth n l d) (nth n l' d').
+Proof.
+  intros T U P l l' n d d' H. revert n. induction H as [|x y l l' Hxy H IH]; intros n Hn.
+  - cbn [length] in Hn. lia.
+  - destruct n as [|n]; cbn [nth]; [exact Hxy|]. apply IH. cbn [length] in Hn. lia.
+Qed.
+
+Lemma Forall2_len : forall (T U : Type) (P : T -> U -> Prop) l l', Forall2 P l l' -> length l = length l'.
+Proof. intros T U P l l' H. induction H; cbn [length]; lia. Qed.
+
+Lemma head_strip : forall (hd : addr) c1 c2 d,
+  NoDup (hd :: c2) -> subseq (hd :: c1) d -> subseq d (hd :: c2) ->
+  exists d', d = hd :: d' /\ subseq c1 d' /\ subseq d' c2.
+Proof.
+  intros hd c1 c2 d Hnd H1 H2. inversion Hnd as [|? ? Hn _]; subst.
+  assert (Hin : In hd d) by (apply (subseq_incl _ _ _ H1); left; reflexivity).
+  destruct d as [|x d]; [destruct Hin|].
+  inversion H2 as [|y l1 l2 Hs|y l1 l2 Hs]; subst.
+  - exfalso. apply Hn. apply (subseq_incl _ _ _ Hs). exact Hin.
+  - exists d. split; [reflexivity|]. split; [|exact Hs].
+    inversion H1 as [|y l1 l2 Hs1|y l1 l2 Hs1]; subst; [|exact Hs1].
+    exfalso. apply Hn. apply (subseq_incl _ _ _ Hs). apply (subseq_incl _ _ _ Hs1). left. reflexivity.
+Qed.
+
+Lemma path_head : forall h lv a C, path h lv (Some a) C -> exists c, C = a :: c.
+Proof.
+  intros h lv a C H. destruct C as [|b c]; [apply seg_nil_inv in H; discriminate|].
+  apply seg_start in H. injection H as ->. exists c. reflexivity.
+Qed.
+
+(* C2 across any number of inserts: the writer works through a list of inserts (each:
+   allocate the node, search, then the stores), readers appear at arbitrary moments and
+   their loads interleave arbitrarily with everything the writer does. For a reader that
+   appears after sched1: whatever it has seen plus what lies ahead of it is a sub-chain of
+   the current sorted level-0 chain C2 and contains the whole chain C1 that existed when it
+   appeared; when it reaches nil it returns a sorted list containing every entry of C1. *)
+Theorem C18_reader_multi : forall fuel h0 ls0 todo sched1 sched2,
+  wf_heap h0 ls0 -> todo_ok h0 todo -> length (ls0 0) + length todo <= fuel ->
+  let s1 := m_run fuel (m_init h0 todo) sched1 in
+  let s2 := m_run fuel (m_step fuel s1 MSpawn) sched2 in
+  let r := nth (length (m_readers s1)) (m_readers s2) r_init in
+  exists C1 C2,
+    path (m_heap s1) 0 (Some head) C1 /\
+    path (m_heap s2) 0 (Some head) C2 /\ sorted (ents (m_heap s2) (tl C2)) /\
+    (exists rest, subseq C1 (r_done r ++ rest) /\ subseq (r_done r ++ rest) C2) /\
+    (r_cur r = None ->
+       let out := ents (m_heap s2) (tl (r_done r)) in
+       sorted out /\ subseq (tl C1) (tl (r_done r)) /\ subseq (tl (r_done r)) (tl C2) /\
+       (forall x, In x (ents (m_heap s1) (tl C1)) -> In x out)).
+Proof.
+  intros fuel h0 ls0 todo sched1 sched2 W T B s1 s2 r.
+  destruct (GM_run fuel sched1 _ _ (GM_init fuel h0 ls0 todo W T B)) as (Ss1 & G1).
+  cbn [app] in G1. fold s1 in G1.
+  assert (L1 : length (m_readers s1) = length Ss1).
+  { destruct G1 as (C & _ & _ & F). exact (Forall2_len _ _ _ _ _ F). }
+  destruct (GM_step fuel s1 Ss1 MSpawn G1) as (Ss1' & G1' & (C1 & HC1 & ->)).
+  destruct (GM_run fuel sched2 _ _ G1') as (more & G2). fold s2 in G2.
+  destruct G2 as (C2 & Hph & _ & F2).
+  destruct (phase_path fuel s2 C2 Hph) as [HC2 HS2].
+  assert (HB : RB (m_heap s2) C2 C1 r).
+  { pose proof (Forall2_nth_both _ _ _ _ _ (length Ss1) r_init [] F2) as X. cbv beta in X.
+    unfold r. rewrite L1.
+    replace (nth (length Ss1) ((Ss1 ++ [C1]) ++ more) []) with C1 in X.
+    - apply X. rewrite !app_length. cbn [length]. lia.
+    - rewrite <- app_assoc. rewrite app_nth2 by lia. rewrite Nat.sub_diag. reflexivity. }
+  exists C1, C2. split; [exact HC1|]. split; [exact HC2|]. split; [exact HS2|].
+  destruct HB as (rest & Hp & H1 & H2). split; [exists rest; split; assumption|].
+  intros Hc out. rewrite Hc in Hp. inversion Hp; subst. rewrite app_nil_r in H1, H2.
+  destruct (path_head _ _ _ _ HC1) as (c1 & ->). destruct (path_head _ _ _ _ HC2) as (c2 & ->).
+  destruct (head_strip head c1 c2 (r_done r) (path_nodup _ _ _ _ HC2) H1 H2) as (d & Ed & S1 & S2).
+  unfold out. rewrite Ed. cbn [tl] in *.
+  split; [eapply sorted_subseq; [apply subseq_map; exact S2|exact HS2]|].
+  split; [exact S1|]. split; [exact S2|].
+  intros x Hx. unfold ents in Hx. apply in_map_iff in Hx. destruct Hx as (a & <- & Ha).
+  assert (Hal : m_heap s1 a <> None).
+  { apply (seg_allocated _ _ _ _ _ HC1). right. exact Ha. }
+  assert (Hext : ext (m_heap s1) (m_heap s2)).
+  { unfold s2. eapply ext_trans; [apply (m_step_ext fuel s1 MSpawn)|apply m_run_ext]. }
+  destruct (Hext a Hal) as [_ <-]. unfold ents. apply in_map. apply (subseq_incl _ _ _ S1). exact Ha.
+Qed.
+
 (* ------------------------------------------------------------------------------------- *)
 (* a concrete instance                                                                    *)
 (* ------------------------------------------------------------------------------------- *)
@@ -1293,6 +1670,8 @@ Definition e1 := mkM [1] 1 KVal [10].
 Definition e2 := mkM [3] 1 KVal [30].
 Definition e3 := mkM [5] 2 KVal [50].
 Definition e4 := mkM [3] 7 KDel [].          (* newer version of key [3]: goes before e2 *)
+Definition e5 := mkM [2] 3 KVal [20].
+Definition e6 := mkM [0] 9 KVal [].
 Local Close Scope N_scope.
 
 Definition nx (l : list (option addr)) : nat -> option addr := fun lv => nth lv l None.
@@ -1361,6 +1740,20 @@ Proof. vm_compute. repeat split. Qed.
 Example h_prevs_ex :
   map (h_prevs h_ex e4 10 3) [0; 1; 2] = [1; 1; 0] /\ map prev_ex [0; 1; 2] = [1; 1; 0].
 Proof. vm_compute. split; reflexivity. Qed.
+
+(* two inserts (addresses 5 and 6); the reader appears when 5 is linked on level 0, has
+   passed head before 6 is linked in front, and still returns everything it started with *)
+Example reader_multi_ex :
+  let todo := [mkIns 5 e5 1; mkIns 6 e6 3] in
+  let s1 := m_run 10 (m_init h_ex todo) [MW; MW; MW] in
+  let s2 := m_run 10 (m_step 10 s1 MSpawn)
+                  [MR 0; MR 0; MW; MW; MW; MR 0; MW; MW; MR 0; MW; MW; MR 0; MR 0] in
+  chain_of (m_heap s1) 0 10 (Some head) = Some [0; 1; 5; 2; 3] /\
+  map (fun lv => chain_of (m_heap s2) lv 10 (Some head)) [0; 1; 2; 3] =
+    [Some [0; 6; 1; 5; 2; 3]; Some [0; 6; 1; 3]; Some [0; 6; 3]; Some [0]] /\
+  map (fun r => (r_cur r, r_done r)) (m_readers s2) = [(None, [0; 1; 5; 2; 3])] /\
+  m_ops s2 = [] /\ m_todo s2 = [].
+Proof. vm_compute. repeat split. Qed.
 
 (* the general theorems instantiated *)
 Example wellformed_always_inst : forall k,
